@@ -2,7 +2,7 @@
    `mstep` / `mrun` = the model step / run with the flag regenerated from relational_engine/src/lib.rs
    (tx_insert locks the row it inserts; Inst.gen_c09_spec re-proves on every run that it is `true`). *)
 From NV.Common Require Import Base LockTable LockTableFacts.
-From NV.C09 Require Import Model Proofs Inst.
+From NV.C09 Require Import Model Proofs IndexProofs Inst.
 From NV.gen Require Import Gen_C09.
 Open Scope N_scope.
 
@@ -98,6 +98,54 @@ Theorem C09_rollback_restores_row : forall tx rid e0 e,
             live (nth_row (rows (fst (do_rollback gen_undo_btree_guarded e tx l))) rid) = live (nth_row (rows e0) rid).
 Proof. exact (rollback_restores_row gen_insert_locks_row gen_undo_btree_guarded). Qed.
 
+(* "... and every query answered through an index": after ANY history of well-formed operations that contains no
+   rollback (inserts, updates, deletes inside and outside transactions, commits, index creation at any time, lock
+   expiry), every Eq / Lt / Ge / And query answered through a hash or B-tree index returns exactly what the scan
+   returns: the same rows, each once, in the same order. *)
+Theorem C09_index_answers_equal_scan_reachable : forall ops ltmo0 c,
+  Forall wf_op ops -> (forall tx, ~ In (RRollback tx) ops) ->
+  let e := mrun (einit ltmo0) ops in select_ids e c = map fst (matching e c).
+Proof.
+  intros ops ltmo0 c Hw Hn e. apply select_index_eq_scan, AllGood_EntOK. unfold e. clear e.
+  destruct gen_c09_spec as [_ [_ [_ [_ [_ ->]]]]].
+  assert (G : forall ops e0, Forall wf_op ops -> (forall tx, ~ In (RRollback tx) ops) -> AllGood e0 -> AllGood (rrun gen_insert_locks_row true e0 ops)).
+  { clear. induction ops as [|o r IH]; intros e0 Hw Hn G0; [exact G0|].
+    change (rrun gen_insert_locks_row true e0 (o :: r)) with (rrun gen_insert_locks_row true (fst (rstep gen_insert_locks_row true e0 o)) r).
+    inversion Hw; subst. apply IH; auto.
+    - intros tx Hin. apply (Hn tx). now right.
+    - apply rstep_AllGood; auto. intros tx ->. apply (Hn tx). now left. }
+  apply G; auto. apply einit_AllGood.
+Qed.
+
+(* ... and through rollbacks: let tx begin in a state reached without rollbacks (log empty); let it run any of its
+   (well-formed) statements, interleaved, as seen from every row, with other state changes that leave tx's log, that
+   row, the index metadata and the other rows' index entries alone (HistI; the excluded interleavings are exactly the
+   two known classes: another writer after lock expiry, and index creation inside the open transaction).
+   Then after rolling tx back every query through an index again answers exactly like the scan. *)
+Theorem C09_rollback_restores_indexes : forall ops ltmo0 e c,
+  Forall wf_op ops -> (forall tx, ~ In (RRollback tx) ops) ->
+  let eb := mrun (einit ltmo0) ops in let tx := nexttx eb in let e0 := fst (mstep eb RBegin) in
+  (forall rid, HistI gen_insert_locks_row tx rid e0 e) ->
+  exists l, aget (txs e) tx = Some l /\
+    let e' := fst (do_rollback gen_undo_btree_guarded e tx l) in select_ids e' c = map fst (matching e' c).
+Proof.
+  intros ops ltmo0 e c Hw Hn eb tx e0 H.
+  assert (Gb : AllGood eb).
+  { unfold eb. destruct gen_c09_spec as [_ [_ [_ [_ [_ Eg]]]]]. rewrite Eg.
+    assert (G : forall ops e0, Forall wf_op ops -> (forall tx, ~ In (RRollback tx) ops) -> AllGood e0 -> AllGood (rrun gen_insert_locks_row true e0 ops)).
+    { clear. induction ops as [|o r IH]; intros e0 Hw Hn G0; [exact G0|].
+      change (rrun gen_insert_locks_row true e0 (o :: r)) with (rrun gen_insert_locks_row true (fst (rstep gen_insert_locks_row true e0 o)) r).
+      inversion Hw; subst. apply IH; auto.
+      - intros tx Hin. apply (Hn tx). now right.
+      - apply rstep_AllGood; auto. intros tx ->. apply (Hn tx). now left. }
+    apply G; auto. apply einit_AllGood. }
+  assert (G0 : AllGood e0) by (unfold e0; cbn [rstep begin fst]; apply (AllGood_data eb); auto).
+  assert (Hl : aget (txs e0) tx = Some []) by (unfold e0, tx; cbn [rstep begin fst txs]; now rewrite aget_aset, N.eqb_refl).
+  destruct (rollback_keeps_all_indexes gen_insert_locks_row tx e0 e H Hl G0) as [l [Ht Ga]].
+  exists l. split; [exact Ht|]. destruct gen_c09_spec as [_ [_ [_ [_ [_ ->]]]]]. cbv zeta.
+  apply select_index_eq_scan, AllGood_EntOK, Ga.
+Qed.
+
 (* "committing makes all of them permanent": commit touches neither rows nor index entries. *)
 Theorem C09_commit_keeps_all : forall e tx,
   let e' := fst (mstep e (RCommit tx)) in
@@ -141,11 +189,27 @@ Proof.
   eapply HOther; [| | |apply HOwn with (o := RDelete (Some 2) (CEq 0 2)); apply HNil]; vm_compute; (reflexivity || discriminate).
 Qed.
 
+(* HistI is inhabited for every row at once by a transaction that updates and then deletes, with a commit of
+   another transaction in between *)
+Example ex_histI :
+  let eb := mrun (einit 30000) [RCreateIndex 0; RCreateBtree 1; RInsert None 1 1; RInsert None 2 0] in
+  let e0 := fst (mstep eb RBegin) in
+  let e1 := fst (mstmt e0 (nexttx eb) (RUpdate (Some (nexttx eb)) (CGe 0 1) 1 2)) in
+  let e2 := fst (mstmt e1 (nexttx eb) (RDelete (Some (nexttx eb)) (CEq 0 2))) in
+  (forall rid, HistI gen_insert_locks_row (nexttx eb) rid e0 e2) /\ map fst (matching e2 CTrue) = [1] /\ map fst (matching e0 CTrue) = [1; 2].
+Proof.
+  intros eb e0 e1 e2. split; [|vm_compute; split; reflexivity].
+  intros rid. apply (HIown gen_insert_locks_row (nexttx eb) rid e0 (RUpdate (Some (nexttx eb)) (CGe 0 1) 1 2) e2); [exact (eq_refl : (1 ?= 2) = Lt)|].
+  apply (HIown gen_insert_locks_row (nexttx eb) rid e1 (RDelete (Some (nexttx eb)) (CEq 0 2)) e2); [exact I|]. apply HI0.
+Qed.
+
 Print Assumptions C09_row_lock_exclusion.
 Print Assumptions C09_writer_holds_lock.
 Print Assumptions C09_locks_released_at_end.
 Print Assumptions C09_finished_unusable.
 Print Assumptions C09_index_answers_equal_scan.
+Print Assumptions C09_index_answers_equal_scan_reachable.
+Print Assumptions C09_rollback_restores_indexes.
 Print Assumptions C09_rollback_restores_row.
 Print Assumptions C09_commit_keeps_all.
 Print Assumptions C09_rollback_after_expiry_refuted.
